@@ -30,7 +30,7 @@ def run(path):
 def run_patch(path):
     """an independent behaviour-preserving refactoring (seeded/refactors/<area>/rN.diff): applied to temporary copies"""
     import shutil
-    name = os.path.relpath(path, os.path.join(here, "seeded", "refactors"))[:-5].replace("/", "-")
+    name = os.path.relpath(path, os.path.join(here, "seeded"))[:-5].replace("/", "-")
     patch = open(path).read()
     files = [l[6:].strip() for l in patch.splitlines() if l.startswith("+++ b/")]
     tmp = tempfile.mkdtemp()
@@ -57,9 +57,9 @@ with concurrent.futures.ThreadPoolExecutor(max_workers=6) as ex:
     if only:
         files = [f for f in files if os.path.basename(f)[:-5] in only]
     res = list(ex.map(run, files))
-    pfiles = sorted(glob.glob(os.path.join(here, "seeded", "refactors", "*", "r*.diff")))
+    pfiles = sorted(glob.glob(os.path.join(here, "seeded", "refactors*", "*", "r*.diff")))
     if only:
-        pfiles = [f for f in pfiles if os.path.relpath(f, os.path.join(here, "seeded", "refactors"))[:-5].replace("/", "-") in only]
+        pfiles = [f for f in pfiles if os.path.relpath(f, os.path.join(here, "seeded"))[:-5].replace("/", "-") in only]
     res += list(ex.map(run_patch, pfiles))
 bad = 0
 for name, st, info in res:
